@@ -1,6 +1,337 @@
-import Srctools.Model.C17
-/-! # C17 — placeholder while the harness is brought up (replaced by the real theorems) -/
+import Srctools.Proofs.C17Collapse
+import Srctools.Proofs.C17Names
+import Mathlib.Algebra.Field.Rat
+/-!
+# C17 — instance collapse transforms contents exactly and leaves the template intact
+
+Property theorems only. They are about the executable model `Srctools/Model/C17.lean`
+(`place`, `localiseAxis`, `Side.localise`, `fixupName`, `substitute`, `collapse`, `collapseAll`,
+the `FixupValue` cell model), which `harness/p_c17.py` compares with `/repo`'s `collapse_one` /
+`collapse_all` after every step of random collapse histories (scalars there = `Rat`; `C17_rat`
+below shows the theorems' field instance is the arithmetic the driver runs).
+
+Geometry is stated over an arbitrary commutative ring / field `K`; `Orth R` is `R·Rᵀ = 1`.
+-/
 namespace C17
+
+/-! ## placement algebra -/
+section Geometry
+variable {K : Type} [CommRing K]
+
+/-- Rotate-then-offset composes: placing by `P₁` then `P₂` is placing by `P₁ ≫ P₂`
+(`R = R₁R₂`, `o = o₁R₂ + o₂`) — a nested instance ends where the composed placement puts it. -/
+theorem C17_compose (P₁ P₂ : Placement K) (p : V3 K) :
+    place P₂ (place P₁ p) = place (P₁.comp P₂) p := place_comp P₁ P₂ p
+
+/-- The identity placement (used for manifests) moves nothing. -/
+theorem C17_place_id (p : V3 K) : place Placement.id p = p := place_id p
+
+/-- Points on a face plane stay on the placed plane: the plane equation through the three placed
+plane points, evaluated at the placed point, is `det R` times the original one (no hypothesis on
+`R` at all). -/
+theorem C17_plane (P : Placement K) (p0 p1 p2 q : V3 K) :
+    planeEq3 (place P p0) (place P p1) (place P p2) (place P q) = P.R.det * planeEq3 p0 p1 p2 q :=
+  planeEq3_place P p0 p1 p2 q
+
+/-- …and for an orthogonal `R` (`det R = ±1`) exactly the points of the plane are mapped onto the
+placed plane. -/
+theorem C17_plane_iff (P : Placement K) (h : Orth P.R) (p0 p1 p2 q : V3 K) :
+    planeEq3 (place P p0) (place P p1) (place P p2) (place P q) = 0 ↔ planeEq3 p0 p1 p2 q = 0 := by
+  rw [C17_plane]
+  constructor
+  · intro e
+    have := congrArg (P.R.det * ·) e
+    simp only [← mul_assoc, h.det_sq, one_mul, mul_zero] at this
+    exact this
+  · intro e; rw [e, mul_zero]
+
+/-- The face normal turns with the face: `n' · (w R) = det R · (n · w)`. -/
+theorem C17_normal (P : Placement K) (p0 p1 p2 w : V3 K) :
+    (((place P p1).sub (place P p0)).cross ((place P p2).sub (place P p0))).dot (rot P.R w)
+      = P.R.det * (((p1.sub p0).cross (p2.sub p0)).dot w) := normal_place P p0 p1 p2 w
+
+/-- Distances/angles are preserved by the instance rotation. -/
+theorem C17_dot (R : M3 K) (h : Orth R) (p q : V3 K) : (rot R p).dot (rot R q) = p.dot q :=
+  dot_rot h p q
+
+/-- **Orientation.** An orientation `m` (`Matrix.from_angle` of an `angles` value) becomes `m·R`,
+which acts as "first the entity's own orientation, then the instance rotation", and is again
+orthogonal. -/
+theorem C17_orient (I : Inst K) (m : M3 K) :
+    (∀ [Div K], fixupKey I (.orient m) = .orient (m.mul I.P.R)) ∧
+    (∀ v, rot (m.mul I.P.R) v = rot I.P.R (rot m v)) ∧
+    (Orth m → Orth I.P.R → Orth (m.mul I.P.R)) :=
+  ⟨fun {_} => rfl, fun v => (rot_mul m I.P.R v).symm, fun hm hR => hm.mul hR⟩
+
+/-- `Matrix.from_angle` as coded yields a rotation (both `M·Mᵀ = 1` and `Mᵀ·M = 1`, `det = 1`)
+whenever its six inputs are cosines/sines; so the angles written back,
+`toAngle (fromAngle a · R)`, denote exactly `fromAngle a · R` for any `toAngle` that is a section
+of `fromAngle` on rotations. -/
+theorem C17_orient_angles (toAngle : M3 K → Trig K)
+    (hsec : ∀ M, Orth M → M.det = 1 → fromTrig (toAngle M) = M)
+    (a : Trig K) (ha : a.Unit) (R : M3 K) (hR : Orth R) (hdet : R.det = 1) :
+    Orth (fromTrig a) ∧ Orth (fromTrig a).transpose ∧ (fromTrig a).det = 1 ∧
+    fromTrig (toAngle ((fromTrig a).mul R)) = (fromTrig a).mul R := by
+  refine ⟨(orth_fromTrig ha).1, (orth_fromTrig ha).2, det_fromTrig ha, ?_⟩
+  apply hsec _ ((orth_fromTrig ha).1.mul hR)
+  rw [det_mul, det_fromTrig ha, hdet, one_mul]
+
+end Geometry
+
+section Texture
+variable {K : Type} [Field K]
+
+/-- **Texture alignment moves with the geometry**: the texture coordinate of a placed point under
+the localised axis (`offset − (axis'·o)/scale`, exactly as coded) equals the original coordinate. -/
+theorem C17_uv (P : Placement K) (h : Orth P.R) (ax : UVAxis K) (p : V3 K) :
+    texCoord (localiseAxis P ax) (place P p) = texCoord ax p := texCoord_localise h ax p
+
+/-- Localising an axis twice is localising by the composed placement (nested instances). -/
+theorem C17_uv_compose (P₁ P₂ : Placement K) (h : Orth P₂.R) (ax : UVAxis K) :
+    localiseAxis P₂ (localiseAxis P₁ ax) = localiseAxis (P₁.comp P₂) ax := localiseAxis_comp h ax
+
+/-- Whole faces/brushes: `localise` composes. -/
+theorem C17_solid_compose (P₁ P₂ : Placement K) (h : Orth P₂.R) (b : Solid K) :
+    Solid.localise P₂ (Solid.localise P₁ b) = Solid.localise (P₁.comp P₂) b :=
+  Solid.localise_comp h b
+
+/-- **Placement.** The collapse at any placement is the collapse at the identity placement with
+`place P` applied to positions, planes, texture axes, directions and orientations — everything
+else (names, substituted values, output targets, nested fixups) is the same. -/
+theorem C17_placement (T : Template K) (I : Inst K) :
+    collapse T I = mapGeometry I.P (collapse T (I.at Placement.id)) := collapse_factor T I
+
+/-- **Results differ only by placement.** Collapsing the same template with the same instance
+parameters at `P₁` and at `P₂` gives results related by the relative placement `P₁⁻¹ ≫ P₂`. -/
+theorem C17_repeat (T : Template K) (I : Inst K) (P₁ P₂ : Placement K)
+    (h₁ : Orth P₁.R) (h₁' : Orth P₁.R.transpose) (h₂ : Orth P₂.R) :
+    collapse T (I.at P₂) = mapGeometry (P₁.inv.comp P₂) (collapse T (I.at P₁)) :=
+  collapse_two_placements T I P₁ P₂ h₁ h₁' h₂
+
+/-- Names, output targets and nested fixups do not depend on the placement. -/
+theorem C17_names_placement_free (T : Template K) (I : Inst K) (P Q : Placement K) :
+    (collapse T (I.at P)).ents.map (fun e => (e.outs, e.fixups)) =
+      (collapse T (I.at Q)).ents.map (fun e => (e.outs, e.fixups)) := by
+  simp [collapse, collapseEnt, Inst.at, fixupFix]
+
+end Texture
+
+/-- The theorems at `K = Rat`, stated with core Lean's own `Rat` operations (the ones `drv_c17`
+executes): Mathlib's field structure on `Rat` is built from exactly these, so the instance of
+`C17_uv` type-checks against them. -/
+theorem C17_rat (P : Placement Rat) (h : Orth P.R) (ax : UVAxis Rat) (p : V3 Rat) :
+    @texCoord Rat Rat.instAdd Rat.instMul Rat.instDiv
+        (@localiseAxis Rat Rat.instAdd Rat.instMul Rat.instSub Rat.instDiv P ax)
+        (@place Rat Rat.instAdd Rat.instMul P p)
+      = @texCoord Rat Rat.instAdd Rat.instMul Rat.instDiv ax p :=
+  C17_uv P h ax p
+
+/-! ## names -/
+
+/-- Empty names and names starting with `@` or `!` pass through every style unchanged. -/
 theorem C17_fixup_passthrough (st : Style) (inst name : List Char) (h : passThrough name = true) :
-    fixupName st inst name = name := by simp [fixupName, h]
+    fixupName st inst name = name := fixupName_pass st inst name h
+
+/-- …so renaming is idempotent on them. -/
+theorem C17_fixup_idempotent_passthrough (st : Style) (inst name : List Char)
+    (h : passThrough name = true) :
+    fixupName st inst (fixupName st inst name) = fixupName st inst name := by
+  rw [fixupName_pass st inst name h, fixupName_pass st inst name h]
+
+/-- Shape of the three styles on plain names. -/
+theorem C17_fixup_shape (inst name : List Char) (h : passThrough name = false) :
+    fixupName .none inst name = name ∧
+    fixupName .pre inst name = inst ++ '-' :: name ∧
+    fixupName .suf inst name = name ++ '-' :: inst :=
+  ⟨fixupName_none inst name, fixupName_pre inst name h, fixupName_suf inst name h⟩
+
+/-- Per style, distinct plain names stay distinct. -/
+theorem C17_fixup_injective_plain (st : Style) (inst a b : List Char)
+    (ha : passThrough a = false) (hb : passThrough b = false)
+    (h : fixupName st inst a = fixupName st inst b) : a = b :=
+  fixupName_inj_plain st inst a b ha hb h
+
+/-- SUFFIX is injective on all names; PREFIX is when the instance name is itself plain. -/
+theorem C17_fixup_injective (inst a b : List Char) :
+    (fixupName .suf inst a = fixupName .suf inst b → a = b) ∧
+    (passThrough inst = false → fixupName .pre inst a = fixupName .pre inst b → a = b) :=
+  ⟨fixupName_suf_inj inst a b, fun hi => fixupName_pre_inj inst a b hi⟩
+
+/-- PREFIX with an instance name starting with `@` is NOT injective (a renamed plain name can
+collide with a pass-through name). -/
+theorem C17_fixup_prefix_collision :
+    fixupName .pre ['@', 'i'] ['x'] = fixupName .pre ['@', 'i'] ['@', 'i', '-', 'x'] ∧
+    (['x'] : List Char) ≠ ['@', 'i', '-', 'x'] := by decide
+
+/-- Renaming is not idempotent on plain names: renaming a renamed name prefixes again. This is what
+makes a collapse that writes into the template observable. -/
+theorem C17_fixup_prefix_twice (inst name : List Char) (hi : passThrough inst = false)
+    (hn : passThrough name = false) :
+    fixupName .pre inst (fixupName .pre inst name) = inst ++ '-' :: (inst ++ '-' :: name) ∧
+    fixupName .pre inst (fixupName .pre inst name) ≠ fixupName .pre inst name :=
+  ⟨fixupName_pre_twice inst name hi hn, fixupName_pre_twice_ne inst name hi hn⟩
+
+/-! ## `$variable` substitution -/
+
+/-- Text without `$` is returned unchanged; a `$`-free prefix is copied. -/
+theorem C17_subst_plain (t : FixTable) (d a b : List Char) (h : '$' ∉ a) :
+    substitute t d a = a ∧ substitute t d (a ++ b) = a ++ substitute t d b :=
+  ⟨substitute_no_dollar t d a h, substitute_append_left t d a b h⟩
+
+/-- At a `$`: a matched variable is replaced by its value and the scan resumes after the matched
+name (the replacement text is not rescanned); without a match the `$` is copied. -/
+theorem C17_subst_step (t : FixTable) (d rest : List Char) :
+    (∀ n val, matchVar t d rest = some (n, val) →
+        substitute t d ('$' :: rest) = val ++ substitute t d (rest.drop n)) ∧
+    (matchVar t d rest = none → substitute t d ('$' :: rest) = '$' :: substitute t d rest) :=
+  ⟨fun n val h => substitute_var t d rest val n h, substitute_dollar_nomatch t d rest⟩
+
+/-- **Longest defined variable wins.** When the table is not empty and some defined name matches
+after the `$`, the name chosen is a defined name, it matches (case-insensitively), no defined name
+that matches is longer, and it is the only matching name of its length — so the choice does not
+depend on the order of the table. -/
+theorem C17_subst_longest (t : FixTable) (ht : t.isEmpty = false) (rest k : List Char)
+    (h : firstMatch (alternatives t) rest = some k) :
+    k ∈ t.map (·.1) ∧ matchesCI k rest = true ∧
+    (∀ k' ∈ t.map (·.1), matchesCI k' rest = true → k'.length ≤ k.length) ∧
+    (∀ k' ∈ t.map (·.1), matchesCI k' rest = true → k'.length = k.length → k' = k) := by
+  simp only [alternatives, ht, Bool.false_eq_true, if_false] at h
+  have hm := firstMatch_some h
+  refine ⟨(mem_sortKeys t k).mp hm.1, hm.2, ?_, ?_⟩
+  · intro k' hk' hmk
+    exact firstMatch_longest (sortKeys_pairwise t) h k' ((mem_sortKeys t k').mpr hk') hmk
+  · intro k' _ hmk hl
+    exact matchesCI_unique k' k rest hmk hm.2 hl
+
+/-- A defined name is found whenever one matches (the identifier fall-back is only reached when no
+defined name matches). -/
+theorem C17_subst_defined_first (t : FixTable) (ht : t.isEmpty = false) (rest : List Char)
+    (h : firstMatch (alternatives t) rest = none) :
+    ∀ k ∈ t.map (·.1), matchesCI k rest = false := by
+  simp only [alternatives, ht, Bool.false_eq_true, if_false] at h
+  intro k hk
+  exact firstMatch_none h k ((mem_sortKeys t k).mpr hk)
+
+/-- As coded, an EMPTY fixup table makes the pattern's first alternative the empty string, so every
+`$` is replaced by the default on its own (`$abc` → `abc` with default `''`), whereas with a
+non-empty table an undefined identifier is replaced as a whole (`$abc` → `''`). -/
+theorem C17_subst_empty_table (d rest : List Char) :
+    substitute [] d ('$' :: rest) = d ++ substitute [] d rest ∧
+    substitute [(['x'], ['1'])] [] ['$', 'a', 'b', 'c', ' ', '$', 'x'] = [' ', '1'] := by
+  constructor
+  · have : matchVar [] d rest = some (0, d) := by
+      simp [matchVar, alternatives, firstMatch, matchesCI, lookupFix]
+    rw [substitute_var [] d rest d 0 this]; simp
+  · decide +kernel
+
+/-! ## collapse_all terminates -/
+
+/-- **Termination with a bound.** `collapseAll` is a total function (it returns, raises
+RecursionError or raises FileNotFoundError) and performs at most `n₀ · Σ_{k<limit} b^k` collapses,
+`b` = maximal number of nested instances in one file, `n₀` = instances in the map. -/
+theorem C17_term (files : List (List Nat)) (b : Nat) (hb : ∀ f ∈ files, f.length ≤ b)
+    (limit : Nat) (insts : List Nat) :
+    (collapseAll files limit insts).collapses ≤ insts.length * geomSum b limit :=
+  collapseAll_bound files b hb limit insts
+
+/-- A normal return leaves no instance in the map. -/
+theorem C17_term_done (files : List (List Nat)) (limit : Nat) (insts : List Nat)
+    (h : (collapseAll files limit insts).outcome = .done) :
+    (collapseAll files limit insts).left = 0 := collapseAll_done_left files limit insts h
+
+/-- The bound is attained: a file including itself twice costs `n·(2^limit − 1)` collapses before
+RecursionError (with the default `recur_limit = 100` that is `2^100 − 1`). -/
+theorem C17_term_exponential (limit n : Nat) (hn : 0 < n) :
+    collapseAll [[0, 0]] limit (List.replicate n 0) = ⟨n * (2 ^ limit - 1), .recursion, n * 2 ^ limit⟩ ∧
+    n * geomSum 2 limit = n * (2 ^ limit - 1) :=
+  ⟨collapseAll_self2 limit n hn, by rw [geomSum_two]⟩
+
+/-! ## the template is not modified (FixupValue cells) -/
+
+/-- Collapse the same template entity several times (each time with its own renaming function,
+i.e. its own instance name/style), threading the store. -/
+def collapseMany (m : CopyMode) : List (List Char → List Char) → Store → List Nat → Store
+  | [], st, _ => st
+  | f :: fs, st, locs => collapseMany m fs (collapseCells m f st locs).2 locs
+
+/-- **Template immutability, any number of collapses in any order.** When `Entity.copy` gives the
+copy fresh `FixupValue` cells, every cell that existed before — the template's and those of all
+earlier copies — still has its value after any sequence of collapses, and every collapse returns
+exactly the renamed values of the template. -/
+theorem C17_template_fresh (fs : List (List Char → List Char)) (st : Store) (locs : List Nat) :
+    (∀ l, l < st.length → (collapseMany .fresh fs st locs).getD l [] = st.getD l []) ∧
+    (∀ f, (collapseCells .fresh f (collapseMany .fresh fs st locs) locs).1
+        = (readCells (collapseMany .fresh fs st locs) locs).map f) := by
+  refine ⟨?_, fun f => collapseCells_fresh_result f _ locs⟩
+  induction fs generalizing st with
+  | nil => intro l _; rfl
+  | cons f fs ih =>
+    intro l hl
+    have hlen := collapseCells_store_length .fresh f st locs
+    rw [collapseMany, ih _ l (by omega), collapseCells_fresh_frame f st locs l hl]
+
+/-- …hence with fresh cells the `k`-th collapse yields the same values as the first. -/
+theorem C17_template_fresh_repeat (fs : List (List Char → List Char)) (f : List Char → List Char)
+    (st : Store) (locs : List Nat) (hl : ∀ l ∈ locs, l < st.length) :
+    (collapseCells .fresh f (collapseMany .fresh fs st locs) locs).1
+      = (collapseCells .fresh f st locs).1 := by
+  rw [collapseCells_fresh_result, collapseCells_fresh_result]
+  congr 1
+  simp only [readCells]
+  apply List.map_congr_left
+  intro l hlm
+  exact (C17_template_fresh fs st locs).1 l (hl l hlm)
+
+/-- **The defect of 2.5.0 (shared cells), general form**: the template's cells hold the renamed
+values after one collapse. -/
+theorem C17_template_shared_rewrites (f : List Char → List Char) (st : Store) (locs : List Nat)
+    (hnd : locs.Nodup) (hlt : ∀ l ∈ locs, l < st.length) :
+    readCells (collapseCells .shared f st locs).2 locs = (readCells st locs).map f :=
+  collapseCells_shared_rewrites f st locs hnd hlt
+
+/-- **Negation witness** (replayed on the implementation by `harness/p_c17.py`): template fixup
+`$color = red`, instance `A`, PREFIX. With shared cells the template reads `A-red` after the first
+collapse and the second collapse yields `A-A-red`; with fresh cells both yield `A-red` and the
+template still reads `red`. -/
+theorem C17_template_shared_defect :
+    let I : Inst Rat := { name := ['A'], style := .pre, fixup := [], P := ⟨⟨1,0,0,0,1,0,0,0,1⟩, ⟨0,0,0⟩⟩ }
+    let f := fixupFix I
+    let st : Store := [['r','e','d']]
+    (collapseCells .shared f st [0]).1 = [['A','-','r','e','d']] ∧
+    readCells (collapseCells .shared f st [0]).2 [0] = [['A','-','r','e','d']] ∧
+    (collapseCells .shared f (collapseCells .shared f st [0]).2 [0]).1 = [['A','-','A','-','r','e','d']] ∧
+    (collapseCells .fresh f (collapseCells .fresh f st [0]).2 [0]).1 = [['A','-','r','e','d']] ∧
+    readCells (collapseCells .fresh f (collapseCells .fresh f st [0]).2 [0]).2 [0] = [['r','e','d']] := by
+  decide +kernel
+
+/-! ## non-vacuity -/
+
+/-- A quarter turn about z (yaw 90) over the integers is orthogonal with determinant 1. -/
+example : Orth (⟨0, 1, 0, -1, 0, 0, 0, 0, 1⟩ : M3 Int) ∧ (⟨0, 1, 0, -1, 0, 0, 0, 0, 1⟩ : M3 Int).det = 1 := by
+  constructor
+  · unfold Orth; decide
+  · decide
+
+/-- `(3/5, 4/5)` rotation over ℚ: orthogonal, and a concrete texture coordinate is preserved. -/
+example :
+    let P : Placement Rat := ⟨⟨3/5, 4/5, 0, -4/5, 3/5, 0, 0, 0, 1⟩, ⟨10, -20, 30⟩⟩
+    let ax : UVAxis Rat := ⟨⟨0, 1, 0⟩, 16, 1/4⟩
+    Orth P.R ∧ texCoord (localiseAxis P ax) (place P ⟨1, 2, 3⟩) = 24 ∧ texCoord ax ⟨1, 2, 3⟩ = 24 := by
+  refine ⟨?_, ?_, ?_⟩
+  · unfold Orth; decide +kernel
+  · decide +kernel
+  · decide +kernel
+
+example : Trig.Unit (⟨3/5, 4/5, 0, 1, 1, 0⟩ : Trig Rat) := by
+  refine ⟨?_, ?_, ?_⟩ <;> decide +kernel
+
+example : passThrough ['@','g'] = true ∧ passThrough ['d','o','o','r'] = false := by decide
+
+/-- `$idx` with table {id ↦ 3, idx ↦ 77} takes the longer name. -/
+example : substitute [(['i','d'], ['3']), (['i','d','x'], ['7','7'])] [] ['a','$','I','D','x','!'] = ['a','7','7','!'] := by
+  decide +kernel
+
+example : (collapseAll [[1], [0]] 4 [0, 1]).collapses = 8 ∧ (collapseAll [[1], []] 3 [0]).outcome = .done := by
+  decide +kernel
+
 end C17
